@@ -98,6 +98,63 @@ package main
 //@   loop 1   invariant [offs]    len(offsets) == len(fields) && (forall j int :: {offsets[j]} 0 <= j && j < len(fields) ==> offsets[j] == align(endof(fields, j), fields[j].Align))
 //@   loop 1   invariant [end]     pos == endof(fields, i)
 
+// ---- "whose padded size is never larger than the original's": a layout sorted by Less has no
+// padding between its fields at all, so its padded size is the sum of the field sizes rounded up
+// to the largest alignment -- and no layout of the same fields can be smaller than that ----
+// Go's alignments are powers of two up to 16 and every size is a multiple of its alignment
+// (divisibility is spelled out per alignment so that only remainders by constants occur)
+//@ ghost divides(a int64, x int64) bool = a == 1 || (a == 2 && x % 2 == 0) || (a == 4 && x % 4 == 0) || (a == 8 && x % 8 == 0) || (a == 16 && x % 16 == 0)
+//@ ghost wfLayout(fs []st.Field) bool = forall j int :: {fs[j]} 0 <= j && j < len(fs) ==> fs[j].Size >= 0 && divides(fs[j].Align, fs[j].Size)
+//@ ghost sortedL(fs []st.Field) bool = forall j int, k int :: {fs[j], fs[k]} 0 <= j && j < k && k < len(fs) ==> !lessF(fs[k], fs[j])
+// a multiple of a plus a multiple of a larger (or equal) power of two is a multiple of a
+//@ lemma div_step(a int64, b int64, x int64, y int64)
+//@   requires divides(a, x) && divides(b, y) && (y == 0 || a <= b)
+//@   ensures  divides(a, x + y)
+//@   trigger  divides(a, x), divides(b, y)
+// in a sorted layout the running sum of sizes is a multiple of every later field's alignment ...
+//@ lemma sum_divides(fs []st.Field, i int, j int)
+//@   uses     div_step
+//@   requires wfLayout(fs) && sortedL(fs) && 0 <= i && i <= j && j < len(fs)
+//@   ensures  sumsize(fs, i) >= 0 && divides(fs[j].Align, sumsize(fs, i))
+//@   induct   i
+//@   trigger  sumsize(fs, i), fs[j]
+// ... rounding a multiple of a up to a multiple of a changes nothing ...
+//@ lemma align_exact(x int64, a int64)
+//@   requires x >= 0 && divides(a, x)
+//@   ensures  align(x, a) == x
+//@   trigger  align(x, a)
+// ... hence no field needs padding in front of it: offsets are the running sums
+//@ lemma sorted_no_padding(fs []st.Field, i int)
+//@   uses     sum_divides, align_exact
+//@   requires wfLayout(fs) && sortedL(fs) && 0 <= i && i <= len(fs)
+//@   ensures  endof(fs, i) == sumsize(fs, i)
+//@   induct   i
+//@   trigger  endof(fs, i)
+// any layout (any order, any padding) of fields takes at least the sum of their sizes
+//@ lemma layout_at_least_sum(fs []st.Field, i int)
+//@   uses     endof_nonneg
+//@   requires wfFields(fs) && 0 <= i && i <= len(fs)
+//@   ensures  endof(fs, i) >= sumsize(fs, i)
+//@   induct   i
+//@   trigger  endof(fs, i)
+
+// rounding up is monotone
+//@ ghost okAlign(a int64) bool = a == 1 || a == 2 || a == 4 || a == 8 || a == 16
+//@ lemma align_mono(x int64, y int64, a int64)
+//@   requires 0 <= x && x <= y && okAlign(a)
+//@   ensures  align(x, a) <= align(y, a)
+//@   trigger  align(x, a), align(y, a)
+// THE THEOREM: the padded size of a layout sorted by Less is not larger than the padded size of
+// any layout gs with the same total field size and the same largest alignment M -- in particular
+// of any permutation of the same fields, e.g. the original order. (That a permutation preserves
+// the sum of sizes and the largest alignment, and that sort.Sort yields a sorted permutation,
+// are the two facts taken from outside.)
+//@ lemma sorted_is_minimal(fs []st.Field, gs []st.Field, M int64)
+//@   uses     sorted_no_padding, layout_at_least_sum, align_mono, endof_nonneg
+//@   requires wfLayout(fs) && sortedL(fs) && wfFields(gs) && okAlign(M)
+//@   requires sumsize(fs, len(fs)) == sumsize(gs, len(gs))
+//@   ensures  align(endof(fs, len(fs)), M) <= align(endof(gs, len(gs)), M)
+
 // ---- combine: the flat layout printed by structlayout ("T.f", "T.in.x", "T.in.y", padding)
 // is folded into one entry per top-level field ----
 //@ extern strings.Split(s string, sep string) []string
